@@ -428,6 +428,10 @@ func (its *PushPullHandler) evaluatePushPullCase() (pushPullCase, errors.OrdaErr
 		return caseUsedDUID, nil
 	}
 	if its.datatypeDoc.Type == its.gotPushPullPack.Type.String() {
+		// the request is served on the datatype that holds the key in THIS collection, whatever DUID the client sent:
+		// operations are read and stored by DUID alone, so a foreign DUID would reach another datatype's log.
+		its.DUID = its.datatypeDoc.DUID
+		its.resPushPullPack.DUID = its.datatypeDoc.DUID
 		if its.datatypeDoc.Visible {
 			subscribedClient := its.datatypeDoc.GetClientInDatatypeDoc(its.CUID, its.isReadOnly)
 			if subscribedClient != nil {
